@@ -476,6 +476,19 @@ def filter_bookkeeping_rule(ctx, rule):
                 if fl_:
                     writes.append((fl_[-1][2], show(x.rvalue(st.rv, x.depth), 40)))
     okv = len(cks) == 2 and writes == [("source_address", "Option::None{}")]
+    if not okv and len(cks) == 2 and not writes:
+        # the same key built with struct-update syntax: `UDPEndpoint { source_address: None, ..endpoint.clone() }` - every other field is the
+        # clone's field of the same name
+        ivs = Slicer(iv.body)
+        for blk in iv.body.blocks:
+            for st in blk.stmts:
+                if st.k == "assign" and st.rv.k == "aggr" and (st.rv.j.get("adt") or "").endswith("UDPEndpoint") and not blk.cleanup:
+                    names_ = st.rv.j.get("fnames", [])
+                    vals_ = [show(ivs.expand(x.operand(o_)), 200) for o_ in st.rv.ops]
+                    others = [(n_, v_) for n_, v_ in zip(names_, vals_) if n_ != "source_address"]
+                    if dict(zip(names_, vals_)).get("source_address") == "Option::None{}" and others and \
+                            all(re.search(r"Clone::clone\(&?endpoint\)\.%s$|clone\(&?endpoint\)\.%s$" % (re.escape(n_), re.escape(n_)), v_) for n_, v_ in others):
+                        okv = True
     if okv:
         rule.ok("TSI::is_valid", "endpoint, or endpoint with source_address = None", loc(iv.sp))
     else:
